@@ -26,7 +26,7 @@ func init() {
 	run.Register(&run.Prop{
 		ID:    "C16",
 		Title: "Pixels are invariant under re-expression of the same picture",
-		Rule:  "every case is a graphic (1..4 paths of all verbs incl. arcs, flat and gradient fills, colours through palette indices/registers/blends, optionally a skipped first path) rendered through raster/vec into RGBA or Alpha images of sizes {1,2,7,64,255,511,512,513,600,...}; relations checked: (a) rectangle at an offset inside a larger pre-filled image vs an own image, with a sentinel frame, (b) viewBox, coordinates and gradient matrix scaled by 2^k, k in [-12,12], (c) indirect colours vs the direct colours computed by the reference machine, (d) DrawOp=Src for all paths vs first drawn path with Src and the rest with Over; non-trivial = at least one pixel of the reference rendering differs from the background; distinctness by hash of the graphic and configuration",
+		Rule:  "every case is a graphic (1..4 paths of all verbs incl. arcs, flat and gradient fills, colours through palette indices/registers/blends, optionally a skipped first path) rendered through raster/vec into RGBA or Alpha images of sizes {1,2,7,64,255,511,512,513,600,...}; relations checked: (a) rectangle at an offset inside a larger pre-filled image vs an own image, with a sentinel frame, (b) viewBox, coordinates and gradient matrix scaled by 2^k, k in [-12,12], (c) indirect colours vs the direct colours computed by the reference machine, (d) DrawOp=Src for all paths vs first drawn path with Src and the rest with Over, and Src results independent of the previous image content; non-trivial = at least one pixel of the reference rendering differs from the background; distinctness by hash of the graphic and configuration",
 		Assumptions: []string{
 			"golang.org/x/image/vector is deterministic and its result depends only on the path geometry relative to the rasterizer origin",
 			"IEEE-754 arithmetic commutes with scaling by a power of two in the exponent range used",
@@ -38,7 +38,7 @@ func init() {
 				}
 				return 20_000
 			}, Run: c16Case, CaseCPU: 120,
-				Min: map[string]int64{"graphics": 4000, "relation_offset": 4000, "relation_scale": 4000, "relation_colours": 4000, "relation_drawop": 4000, "sentinel_pixels": 100000, "rgba_images": 1000, "alpha_images": 1000,
+				Min: map[string]int64{"graphics": 4000, "relation_offset": 4000, "relation_scale": 4000, "relation_colours": 4000, "relation_drawop": 4000, "relation_src_background": 3000, "sentinel_pixels": 100000, "rgba_images": 1000, "alpha_images": 1000,
 					"sizes_above_512": 50, "gradient_paths": 2000, "skipped_first_path": 500, "nontrivial_renderings": 3000}},
 		},
 	})
@@ -424,6 +424,21 @@ func c16Case(c *run.Ctx, idx uint64) {
 		c.Count("relation_drawop", 1)
 		if !bytes.Equal(pixOf(allSrc), pixOf(split)) {
 			c.Violate("drawop/not-first-drawn-path-only", desc(map[string]interface{}{"first_drawn_path": first, "differing_bytes": diffCount(pixOf(allSrc), pixOf(split))}))
+			return
+		}
+		// The configured operator really is applied: with Src the first drawn
+		// path replaces the rectangle, so the result cannot depend on what
+		// the image held before.
+		if first >= 0 {
+			other := newImg(rgba, own)
+			fillPattern(other, bg+7)
+			if !c.Guard("render on another background", func() interface{} { return desc(nil) }, func() { c16Render(other, own, draw.Src, g.vb, g.pal, g.ops, nil) }) {
+				return
+			}
+			c.Count("relation_src_background", 1)
+			if !bytes.Equal(pixOf(allSrc), pixOf(other)) {
+				c.Violate("drawop/src-result-depends-on-background", desc(map[string]interface{}{"first_drawn_path": first, "differing_bytes": diffCount(pixOf(allSrc), pixOf(other))}))
+			}
 		}
 	}
 }
